@@ -425,6 +425,15 @@ func (f *frame) exec(entryReach string, st0 *State) {
 					}
 				}
 				for _, n := range sortedKeys(mod) {
+					if strings.HasPrefix(n, "G_") && n != mapLenHeap {
+						// a ghost set of visited/marked items only grows: whatever was in
+						// it before the loop is still in it at every later iteration
+						before := e.heapByName(st, n)
+						f.havocLoopHeap(st, n, mod[n])
+						ks := strings.TrimSuffix(strings.TrimPrefix(e.hsort[n], "(Array "), " Bool)")
+						e.assume(reach, fmt.Sprintf("(forall ((x!g %s)) (! (=> (select %s x!g) (select %s x!g)) :pattern ((select %s x!g))))", ks, before, st.heaps[n], st.heaps[n]))
+						continue
+					}
 					f.havocLoopHeap(st, n, mod[n])
 				}
 				for _, k := range keeps {
@@ -716,7 +725,14 @@ func (f *frame) loopModSet(h *ssa.BasicBlock, be map[[2]int]bool) (map[string]*m
 				case *ssa.MakeSlice:
 					touch(v.Type().Underlying().(*types.Slice).Elem(), true)
 				case *ssa.MapUpdate:
-					// maps are opaque: no heap effect
+					if hp, hv, _, ok := e.mapHeaps(v.Map.Type()); ok {
+						for _, n := range []string{hp, hv} {
+							if mod[n] == nil {
+								mod[n] = &modInfo{cells: map[string]*cellMod{}}
+							}
+							mod[n].whole = true
+						}
+					}
 				case *ssa.Convert:
 					if sl, ok := v.Type().Underlying().(*types.Slice); ok {
 						touch(sl.Elem(), true)
@@ -1193,6 +1209,7 @@ func (f *frame) runBlock(b *ssa.BasicBlock, st *State, be map[[2]int]bool, loopO
 			h := e.nextLoc()
 			f.vals[v] = Val{term: h, typ: v.Type()}
 			e.setMapLen(st, h, e.idxLit(0))
+			e.mapClear(st, f.vals[v])
 		case *ssa.If:
 			c := f.val(v.Cond).term
 			f.edge[[2]int{b.Index, b.Succs[0].Index}] = c
@@ -1236,6 +1253,17 @@ func (f *frame) runBlock(b *ssa.BasicBlock, st *State, be map[[2]int]bool, loopO
 				f.vals[v] = Val{term: e.define(v.Name(), e.sc.sortOf(v.Type()), e.strAt(x.term, it)), typ: v.Type()}
 				continue
 			}
+			if present, val, ok := e.mapGet(st, x, f.val(v.Index).term); ok {
+				mt := x.typ.Underlying().(*types.Map)
+				r0 := Val{term: e.define("mapval", e.sc.sortOf(mt.Elem()), val), typ: mt.Elem()}
+				e.assumeRange(reach, r0)
+				if v.CommaOk {
+					f.setTuple(v, []Val{r0, {term: e.define("mapok", "Bool", present), typ: types.Typ[types.Bool]}})
+				} else {
+					f.vals[v] = r0
+				}
+				continue
+			}
 			// map index: opaque
 			if v.CommaOk {
 				tt := v.Type().(*types.Tuple)
@@ -1261,6 +1289,24 @@ func (f *frame) runBlock(b *ssa.BasicBlock, st *State, be map[[2]int]bool, loopO
 				e.assumeRange(reach, r)
 				rs = append(rs, r)
 			}
+			// ranging over a map whose content is modelled: the key handed out is
+			// present and the value is the one stored under it (which keys are
+			// visited, and in which order, stays unconstrained)
+			if rg, ok := v.Iter.(*ssa.Range); ok && !v.IsString && tt.Len() == 3 {
+				if _, isMap := rg.X.Type().Underlying().(*types.Map); isMap {
+					kt := tt.At(1).Type()
+					if b, bad := kt.Underlying().(*types.Basic); !(bad && b.Kind() == types.Invalid) {
+						if present, val, ok := e.mapGet(st, f.val(rg.X), rs[1].term); ok {
+							fact := present
+							vt := tt.At(2).Type()
+							if b, bad := vt.Underlying().(*types.Basic); !(bad && b.Kind() == types.Invalid) {
+								fact = fmt.Sprintf("(and %s (= %s %s))", present, rs[2].term, val)
+							}
+							e.assume(reach, fmt.Sprintf("(=> %s %s)", rs[0].term, fact))
+						}
+					}
+				}
+			}
 			f.setTuple(v, rs)
 		case *ssa.ChangeInterface:
 			x := f.val(v.X)
@@ -1277,6 +1323,13 @@ func (f *frame) runBlock(b *ssa.BasicBlock, st *State, be map[[2]int]bool, loopO
 			e.assume(reach, e.idxLe(e.idxLit(1), n))
 			if e.sc.arith == "bv" {
 				e.assume(reach, e.idxLe(n, bvLit(maxLen, 64)))
+			}
+			if present, _, ok := e.mapGet(st, m, f.val(v.Key).term); ok {
+				// an existing key keeps the entry count, a new key adds one
+				old := e.mapLen(st, m.term)
+				e.assume(reach, fmt.Sprintf("(= %s (ite %s %s %s))", n, present, old, e.idxAdd(old, e.idxLit(1))))
+				f.nopanic("mapassign-nil", "", reach, fmt.Sprintf("(not (= %s 0))", m.term))
+				e.mapStore(st, m, f.val(v.Key).term, f.val(v.Value).term, true)
 			}
 			e.setMapLen(st, m.term, n)
 		case *ssa.TypeAssert:
@@ -1632,6 +1685,87 @@ func (e *Engine) setMapLen(st *State, m, n string) {
 
 func (e *Engine) mapLen(st *State, m string) string {
 	return fmt.Sprintf("(select %s %s)", e.mapLenTerm(st), m)
+}
+
+// Map content is modelled for key types whose Go equality is the equality of
+// their SMT representation (integers, booleans, pointers, structs of those):
+// per map type a presence heap (Array Loc (Array K Bool)) and a value heap
+// (Array Loc (Array K V)), versioned and havocked like every other heap. Maps
+// with other key types (strings, floats, interfaces) stay opaque: a lookup
+// yields an unconstrained value.
+func plainKey(t types.Type, depth int) bool {
+	switch u := t.Underlying().(type) {
+	case *types.Basic:
+		return u.Info()&(types.IsInteger|types.IsBoolean) != 0
+	case *types.Pointer:
+		return true
+	case *types.Struct:
+		if depth > 3 {
+			return false
+		}
+		for i := 0; i < u.NumFields(); i++ {
+			if !plainKey(u.Field(i).Type(), depth+1) {
+				return false
+			}
+		}
+		return true
+	case *types.Array:
+		return plainKey(u.Elem(), depth+1)
+	}
+	return false
+}
+
+func (e *Engine) mapHeaps(t types.Type) (hp, hv string, mt *types.Map, ok bool) {
+	mt, isMap := t.Underlying().(*types.Map)
+	if !isMap || !plainKey(mt.Key(), 0) || os.Getenv("GOVC_NOMAPS") != "" {
+		return "", "", mt, false
+	}
+	kn, _ := e.heapName(mt.Key(), false)
+	vn, _ := e.heapName(mt.Elem(), false)
+	id := strings.TrimPrefix(kn, "H_") + "__" + strings.TrimPrefix(vn, "H_")
+	hp, hv = "HMP_"+id, "HMV_"+id
+	ks, vs := e.sc.sortOf(mt.Key()), e.sc.sortOf(mt.Elem())
+	e.hsort[hp] = fmt.Sprintf("(Array Int (Array %s Bool))", ks)
+	e.hsort[hv] = fmt.Sprintf("(Array Int (Array %s %s))", ks, vs)
+	return hp, hv, mt, true
+}
+
+// mapGet returns (present, value) terms for m[k] in state st.
+func (e *Engine) mapGet(st *State, m Val, k string) (present, val string, ok bool) {
+	hp, hv, mt, ok := e.mapHeaps(m.typ)
+	if !ok {
+		return "", "", false
+	}
+	P, V := e.heapByName(st, hp), e.heapByName(st, hv)
+	present = fmt.Sprintf("(and (not (= %s 0)) (select (select %s %s) %s))", m.term, P, m.term, k)
+	val = fmt.Sprintf("(ite %s (select (select %s %s) %s) %s)", present, V, m.term, k, e.sc.zero(mt.Elem()))
+	return present, val, true
+}
+
+func (e *Engine) mapStore(st *State, m Val, k, v string, present bool) {
+	hp, hv, _, ok := e.mapHeaps(m.typ)
+	if !ok {
+		return
+	}
+	P := e.heapByName(st, hp)
+	pb := "false"
+	if present {
+		pb = "true"
+	}
+	st.heaps[hp] = e.define(hp, e.hsort[hp], fmt.Sprintf("(store %s %s (store (select %s %s) %s %s))", P, m.term, P, m.term, k, pb))
+	if present {
+		V := e.heapByName(st, hv)
+		st.heaps[hv] = e.define(hv, e.hsort[hv], fmt.Sprintf("(store %s %s (store (select %s %s) %s %s))", V, m.term, V, m.term, k, v))
+	}
+}
+
+func (e *Engine) mapClear(st *State, m Val) {
+	hp, _, mt, ok := e.mapHeaps(m.typ)
+	if !ok {
+		return
+	}
+	P := e.heapByName(st, hp)
+	st.heaps[hp] = e.define(hp, e.hsort[hp], fmt.Sprintf("(store %s %s ((as const (Array %s Bool)) false))", P, m.term, e.sc.sortOf(mt.Key())))
 }
 
 func dbgAll(site int) bool {
